@@ -213,14 +213,15 @@ Proof.
     inversion Hin; subst z b j. split; auto. split.
     + unfold st'. simpl. apply nth_upd_eq. rewrite L2; auto.
     + split; auto. rewrite Hlevjj. split; destruct (Z.gtb_spec (z0 - z1) 0); lia.
-  - intros j Hj. rewrite Hdone' in Hj. destruct (Nat.eqb_spec j jj) as [->|Hne]; [discriminate|].
+  - intros j Hj. rewrite Hdone' in Hj. destruct (Nat.eq_dec j jj) as [Ej|Hne]; [subst j; rewrite Nat.eqb_refl in Hj; discriminate|].
+    apply Nat.eqb_neq in Hne as Hne'. rewrite Hne' in Hj.
     rewrite Hdelv', Hdv_other by auto. apply (p_fresh st HI). exact Hj.
   - exact Hi0lev.
   - apply (p_i0 st HI).
   - intros j Hj Hd Hn.
     assert (Hroots : forall x, root_in st x -> root_in st' x).
     { intros x [[A [B C]]|[A B]].
-      - left. destruct (Hfr x B) as (B' & C' & _). fold st' in B', C'. split; auto. split; auto. unfold st' in C'. congruence.
+      - left. destruct (Hfr x B) as (B' & C' & _). split; [exact A|]. split; [exact B'|]. rewrite C'. exact C.
       - subst x. destruct (doneb st' i0) eqn:E'; [|right; auto].
         left. rewrite Hdone' in E'. destruct (Nat.eqb_spec i0 jj) as [E|E]; [|congruence].
         (* the centre visit *)
@@ -273,4 +274,117 @@ Proof.
   destruct (nth i0 (fqd st) false); unfold doneb; simpl; apply nth_upd_eq; rewrite L1; auto.
 Qed.
 End Pop.
+
+(* ---------- the invariant between pops ---------- *)
+Record linv (st : fstate) : Prop := {
+  l_binv : binv nrow ncol elv nodata st;
+  l_queue : forall z b j, In (z, b, j) (fq st) -> (j < sz)%nat /\ nth j (fqd st) false = true /\ isnd j = false /\ z = filledv st j;
+  l_fresh : forall j, doneb st j = false -> nth j (fdelv st) 0 = 0;
+  l_reach : forall j, (j < sz)%nat -> doneb st j = true -> isnd j = false -> reach (pitroot st) st j }.
+
+Lemma frozen_refl st : frozen st st.
+Proof. intros x Hx. auto. Qed.
+
+Lemma offs_centre : exists pre post, offs conn = pre ++ (0, 0) :: post.
+Proof. unfold offs. destruct (conn =? 4).
+  - exists [(-1,0); (0,-1)], [(0,1); (1,0)]. reflexivity.
+  - exists [(-1,-1); (-1,0); (-1,1); (0,-1)], [(0,1); (1,-1); (1,0); (1,1)]. reflexivity. Qed.
+
+Lemma pop_linv st z0 b0 i0 rest : linv st -> extract_min (fq st) = Some ((z0, b0, i0), rest) ->
+  linv (fold_left (visit z0 i0) (offs conn)
+          {| fdone := fdone st; fqd := fqd st; fdelv := fdelv st; fd8 := fd8 st; fq := rest |}).
+Proof.
+  intros HL Hex. destruct (extract_min_spec _ _ _ Hex) as [Hperm Hmin].
+  assert (Hm : In (z0, b0, i0) (fq st)) by (apply Hperm; left; reflexivity).
+  destruct (l_queue st HL z0 b0 i0 Hm) as (Hi0 & _ & Hnd0 & Hz0).
+  set (st1 := {| fdone := fdone st; fqd := fqd st; fdelv := fdelv st; fd8 := fd8 st; fq := rest |}).
+  assert (HP : pinv z0 i0 st1).
+  { constructor.
+    - destruct (l_binv st HL) as (L1 & L2 & L3 & L4 & Hp & Hn). exact (conj L1 (conj L2 (conj L3 (conj L4 (conj Hp Hn))))).
+    - intros z b j Hin. simpl in Hin.
+      destruct (l_queue st HL z b j) as (A & B & C & D); [apply Hperm; right; exact Hin|].
+      split; auto. split; auto. split; auto. split; auto.
+      pose proof (key_lt_false_z _ _ (Hmin _ Hin)) as Hk. simpl in Hk. exact Hk.
+    - intros j Hj. apply (l_fresh st HL). exact Hj.
+    - symmetry. exact Hz0.
+    - exact Hnd0.
+    - intros j Hj Hd Hn.
+      apply (reach_mono (pitroot st) (root_in i0 st1) st st1); [intros x Hx; left; exact Hx|intros x Hx; unfold doneb in *; simpl; auto|auto|].
+      apply (l_reach st HL); auto. }
+  pose proof (fold_visit_pinv z0 i0 Hi0 (offs conn) (fun o H => H) st1 HP) as HP2.
+  set (st2 := fold_left (visit z0 i0) (offs conn) st1) in *.
+  assert (Hdone_i0 : doneb st2 i0 = true).
+  { unfold st2. destruct offs_centre as [pre [post Hof]]. rewrite Hof, fold_left_app. cbn [fold_left].
+    apply fold_done_mono. apply visit_centre; auto.
+    assert (Hb : binv nrow ncol elv nodata (fold_left (visit z0 i0) pre st1)) by (apply fold_visit_binv; apply (p_binv z0 i0 st1 HP)).
+    destruct Hb as (L1 & _). exact L1. }
+  constructor.
+  - apply (p_binv z0 i0 st2 HP2).
+  - intros z b j Hin. destruct (p_queue z0 i0 st2 HP2 z b j Hin) as (A & B & C & D & _). auto.
+  - apply (p_fresh z0 i0 st2 HP2).
+  - intros j Hj Hd Hn.
+    apply (reach_mono (root_in i0 st2) (pitroot st2) st2 st2); [|apply frozen_refl|auto|apply (p_reach z0 i0 st2 HP2); auto].
+    intros x [Hx|[_ Hx]]; [exact Hx|congruence].
+Qed.
+
+Lemma loop_linv fuel : forall st, linv st -> linv (flood_loop nrow ncol elv conn fuel st).
+Proof.
+  induction fuel as [|f IH]; intros st HL; simpl; auto.
+  destruct (extract_min (fq st)) as [[[[z0 b0] i0] rest]|] eqn:E; auto.
+  apply IH. apply (pop_linv st z0 b0 i0 rest); auto.
+Qed.
+
+Lemma init_linv mode pits : (mode = 2 -> forall p, In p pits -> isnd p = false) ->
+  linv (flood_init nrow ncol elv nodata conn mode pits).
+Proof.
+  intros Hpits. pose proof (init_binv nrow ncol elv nodata conn mode pits) as Hb.
+  unfold flood_init in *.
+  set (cells := seq 0 sz) in *.
+  set (qd0 := if mode =? 2 then map (fun i => memb i pits) cells else map (is_edge nrow ncol elv nodata conn) cells) in *.
+  set (q0 := map (fun i => (nth i elv 0, 1, i)) (filter (fun i => nth i qd0 false) cells)) in *.
+  assert (Hq0 : forall z b j, In (z, b, j) q0 -> (j < sz)%nat /\ nth j qd0 false = true /\ isnd j = false /\ z = nth j elv 0).
+  { intros z b j Hin. unfold q0 in Hin. apply in_map_iff in Hin. destruct Hin as [i [Heq Hi]]. inversion Heq; subst.
+    apply filter_In in Hi. destruct Hi as [Hi Hq]. apply in_seq in Hi. split; [lia|]. split; auto. split; auto.
+    unfold qd0, cells in Hq. destruct (Z.eqb_spec mode 2) as [Hm|Hm].
+    - rewrite map_seq_nth in Hq by lia. apply Hpits; auto. apply memb_In. exact Hq.
+    - rewrite map_seq_nth in Hq by lia. unfold is_edge in Hq. apply andb_true_iff in Hq. destruct Hq as [Hq _].
+      apply negb_true_iff in Hq. exact Hq. }
+  assert (Hzero : forall j, nth j (map (fun _ : nat => 0) cells) 0 = 0).
+  { intros j. destruct (Nat.lt_ge_cases j sz) as [Hj|Hj]; [unfold cells; rewrite map_seq_nth; auto|].
+    apply nth_overflow. unfold cells. rewrite map_length, seq_length. auto. }
+  destruct (mode =? 1) eqn:Em1.
+  - destruct (extract_min q0) as [[[[z b] i] r]|] eqn:Ex.
+    + constructor; simpl.
+      * exact Hb.
+      * intros z' b' j [Heq|[]]. inversion Heq; subst.
+        destruct (extract_min_spec _ _ _ Ex) as [Hperm _].
+        destruct (Hq0 z' b' j) as (A & B & C & D); [apply Hperm; left; reflexivity|].
+        split; auto. split; [unfold cells; rewrite map_seq_nth by auto; apply Nat.eqb_refl|].
+        split; auto. unfold filledv. simpl. rewrite Hzero. lia.
+      * intros j _. apply Hzero.
+      * intros j Hj Hd Hn. unfold doneb in Hd. simpl in Hd. unfold cells in Hd. rewrite map_seq_nth in Hd by auto. congruence.
+    + constructor; simpl.
+      * exact Hb.
+      * intros z' b' j [].
+      * intros j _. apply Hzero.
+      * intros j Hj Hd Hn. unfold doneb in Hd. simpl in Hd. unfold cells in Hd. rewrite map_seq_nth in Hd by auto. congruence.
+  - constructor; simpl.
+    + exact Hb.
+    + intros z b j Hin. destruct (Hq0 z b j Hin) as (A & B & C & D). split; auto. split; auto. split; auto.
+      unfold filledv. simpl. rewrite Hzero. lia.
+    + intros j _. apply Hzero.
+    + intros j Hj Hd Hn. unfold doneb in Hd. simpl in Hd. unfold cells in Hd. rewrite map_seq_nth in Hd by auto. congruence.
+Qed.
+
+Definition flood_state (mode : Z) (pits : list nat) : fstate :=
+  flood_loop nrow ncol elv conn (S sz) (flood_init nrow ncol elv nodata conn mode pits).
+
+Theorem flood_forest_sec mode pits : (mode = 2 -> forall p, In p pits -> isnd p = false) ->
+  let st := flood_state mode pits in
+  fill_depressions nrow ncol elv nodata conn mode pits = (map (filledv st) (seq 0 sz), fd8 st) /\
+  forall j, (j < sz)%nat -> doneb st j = true -> isnd j = false -> reach (pitroot st) st j.
+Proof.
+  intros Hp st. split; [reflexivity|].
+  apply (l_reach st). unfold st, flood_state. apply loop_linv. apply init_linv. exact Hp.
+Qed.
 End FloodTree.
